@@ -29,6 +29,21 @@ def file_bytes(path):
         return f.read()
 
 
+def models_hash(container_header):
+    """hash of the std:: models and specification headers a unit depends on.  A container whose generated header does
+    not include cstl_mmap.h cannot depend on it: for those the multimap model enters the hash with the bytes it had when
+    their results were computed (lib/frozen), so that refining the multimap model re-runs only the containers that use it."""
+    h = hashlib.sha256()
+    mm = os.path.join(VERIF, 'cstl', 'cstl_mmap.h')
+    uses_mm = b'"cstl_mmap.h"' in container_header
+    for p in sorted(files_under(os.path.join(VERIF, 'cstl')) + files_under(os.path.join(VERIF, 'contracts'), {'.h'})):
+        h.update(p.encode())
+        h.update(b'\0')
+        h.update(file_bytes(os.path.join(VERIF, 'lib', 'frozen', 'cstl_mmap.h.v1')) if (p == mm and not uses_mm) else file_bytes(p))
+        h.update(b'\0')
+    return h.hexdigest()[:20]
+
+
 def hash_files(paths):
     h = hashlib.sha256()
     for p in sorted(paths):
@@ -292,9 +307,9 @@ class Unit:
         return '\n'.join(L)
 
     def key(self, contracts_text):
-        cst = hash_files(files_under(os.path.join(VERIF, 'cstl')) + files_under(os.path.join(VERIF, 'contracts'), {'.h'}))
         common = file_bytes(os.path.join(self.gen, 'gen_common.h'))
         hdr = file_bytes(os.path.join(self.gen, self.info['cname'] + '.h'))
+        cst = models_hash(hdr)
         return sha(self.id, contracts_text, cst, common, hdr, self.harness(), ' '.join(CBMC_CHECKS), 'v4' + ('cov2' if self.lockcov else ''))
 
 
